@@ -89,6 +89,10 @@ def cases(tier, seed):
         out.append(dict(kind='concrete', cfg=dict(signature=sig, start_index=None), products=False, sample=3000 if len(sig) > 6 else 0))
     for name in ('2DPGA', '3DPGA', 'STAP'):
         out.append(dict(kind='concrete', cfg=dict(name=name), products=(name != 'STAP')))
+    # the option-dependent blade construction (graded mode builds basis blades differently): every algebra kingdon can construct
+    for cfg in (dict(p=3, graded=True), dict(p=4, graded=True), dict(p=3, r=1, graded=True), dict(p=2, q=2, graded=True), dict(p=5, graded=True),
+                dict(name='2DPGA', graded=True), dict(name='3DPGA', graded=True), dict(name='STAP', graded=True), dict(p=4, cse=False)):
+        out.append(dict(kind='concrete', cfg=cfg, products=False, blade_products=True))
     for i in range(20 if tier == 'quick' else 200):
         d = rng.choice((2, 3, 3, 4))
         pqr = rng.choice(pat.pqr_all(d))
@@ -256,8 +260,23 @@ def _run_concrete(desc, V):
                 b = alg.blades[sp]
                 c = coeffs(b)
                 claims.append(Eq(f'blades[{sp}]', c.get(K, 0), s_ref))
-                if k_ref != K or any(k != K for k in c):
-                    claims.append(Fail(f'blades[{sp}]:key', f'alg.blades[{sp}] stores keys {tuple(b.keys())}, expected ({K},)'))
+                if k_ref != K:
+                    claims.append(Fail(f'blades[{sp}]:key', f'spelling {sp} resolves to key {k_ref}, expected {K}'))
+                for k, v in c.items():
+                    if k != K:       # graded mode stores the whole grade: every other blade must carry 0
+                        claims.append(Eq(f'blades-other[{sp},{k}]', v, 0))
+    if desc.get('blade_products') and d <= 5:
+        # products of basis blades through the public operator (graded blades store whole grades)
+        names = list(alg.canon2bin.items())
+        rng_ = random.Random(d)
+        pairs_ = list(itertools.product(names, repeat=2)) if d <= 3 else rng_.sample(list(itertools.product(names, repeat=2)), 120)
+        for (eI, I), (eJ, J) in pairs_:
+            try:
+                prod = coeffs(alg.blades[eI] * alg.blades[eJ])
+            except ValueError:
+                continue          # graded mode cannot store this product (C13's known finding), not a table question
+            for k in set(prod) | {I ^ J}:
+                claims.append(Eq(f'blade-product[{eI},{eJ},{k}]', prod.get(k, 0), int(alg.signs[I, J]) if k == I ^ J else 0))
     if desc.get('products'):
         for (eI, I), (eJ, J) in itertools.product(alg.canon2bin.items(), repeat=2):
             prod = coeffs(alg.blades[eI] * alg.blades[eJ])
